@@ -377,20 +377,25 @@ func init() {
 		Oracles: map[string]eng.Oracle{"export": c28Oracle},
 		Run: func(w *eng.W) {
 			all := allThemeIDs()
-			w.Phase("1 statement x every theme", func() {
-				for _, t := range c28Targets {
+			for _, t := range c28Targets {
+				t := t
+				w.Phase("<=1 statement on "+t.name+" x every theme", func() {
 					for _, th := range all {
 						w.Eval("export", c28In{Src: t.base, Theme: th}.String())
 					}
 					for _, kw := range t.kws {
 						for v := 0; v < 2; v++ {
-							for _, th := range all {
+							ths := all
+							if v == 1 && !w.Thorough() {
+								ths = c28SpecialThemes // quick: the second value of each keyword only under the special-rule themes
+							}
+							for _, th := range ths {
 								w.Eval("export", c28In{Src: t.base + c28Stmt(t, kw, v), Theme: th}.String())
 							}
 						}
 					}
-				}
-			})
+				})
+			}
 			w.Phase("all keywords on one target x every theme", func() {
 				for _, t := range c28Targets {
 					for v := 0; v < 2; v++ {
